@@ -266,3 +266,83 @@ func withFunds(sc *Scenario, c1, c2 int64) *Scenario {
 	sc.Funds = lifeFunds(c1, c2)
 	return sc
 }
+
+// ---------------------------------------------------------------------------------------------
+// wrong-signer binding operations (C05) and the naming scenario (C15)
+
+func bindOpsAuth() []Action {
+	ops := []Action{
+		actBind("a", "P1", "O1", 10, "p1", 1),
+		actBind("a", "P1", "O2", 10, "p1", 1),  // same (service, provider), other owner
+		actBind("ab", "P1", "O2", 10, "p1", 1), // provider owned by O1, other service
+		actBind("ab", "P1", "O1", 10, "p1", 1),
+		actBind("a", "P2", "O2", 10, "p1", 1),
+	}
+	for _, s := range []string{"O1", "O2", "XX"} {
+		ops = append(ops, actUpdate("a", "P1", s, 10, "", 0), actDisable("a", "P1", s), actEnable("a", "P1", s, 0), actRefund("a", "P1", s))
+	}
+	return ops
+}
+
+func scBindAuth(ps ParamSet, depth, blocks, msgs int) *Scenario {
+	sc := scBind(ps, bindOpsAuth(), nil, nil, depth, blocks, msgs)
+	sc.Name = "S-BIND(auth)"
+	sc.Setup = []Action{actDefine("a", "AU"), actDefine("ab", "AU")}
+	return sc
+}
+
+func bindOpsNames() []Action {
+	return []Action{
+		actDefine("a", "AU"), actDefine("ab", "AU"), actDefine("a", "XX"),
+		actBind("a", "P1", "O1", 10, "p1", 1),
+		actBind("ab", "P1", "O1", 10, "p2v", 1),
+		actBind("ab", "P1", "O2", 10, "p1", 1),
+		actBind("a", "Pp", "O2", 10, "p1", 1),
+		actBind("ab", "P2", "O2", 10, "p1t", 1),
+		actBind("b", "P2", "O2", 10, "p1", 1), // undefined service
+		actBind("a", "P1", "O1", 30, "p5", 1), // second binding
+		actUpdate("a", "P1", "O1", 0, "p3vv", 0),
+		actUpdate("ab", "P1", "O1", 0, "p1t", 2),
+		actDisable("a", "P1", "O1"), actEnable("a", "P1", "O1", 0),
+	}
+}
+
+var tNames = Template{Name: "names", Consumer: "C1", Service: "a", Providers: []string{"P1", "Pp"}, Cap: 5, Timeout: 1}
+
+func scNames(ps ParamSet, depth, blocks, msgs int) *Scenario {
+	return &Scenario{
+		Name: "S-BIND(names)", Params: ps,
+		Funds: []Funding{{O1, 100}, {O2, 100}, {C1, 60}}, Extra: allAccounts,
+		Templates: []Template{tNames},
+		Alpha:     lifeAlpha(AlphaOpts{RespKinds: []string{"ok"}, BindOps: bindOpsNames()}),
+		Depth:     depth, MaxBlocks: blocks, MaxMsgs: msgs,
+	}
+}
+
+// ---------------------------------------------------------------------------------------------
+// S-MSVC: a module service "ms" registered on the keeper, its definition and binding installed as a host
+// chain would (directly through the keeper at genesis).
+
+var MSP = addr20("msprovider")
+
+func init() { addrNames["MSP"] = MSP }
+
+var tMsvc = Template{Name: "callms", Consumer: "C1", Service: "ms", Providers: []string{"MSP"}, Cap: 5, Timeout: 1}
+
+func scMsvc(ps ParamSet, depth, blocks, msgs int) *Scenario {
+	install := Action{Name: "install(ms)", Kind: "install", Tmpl: -1, Signer: MSP,
+		Mod: func(ctx sdk.Context, k servicekeeperT) error {
+			k.SetServiceDefinition(ctx, stDef("ms"))
+			return k.SetServiceBindingForGenesis(ctx, stBinding("ms", MSP, `{"price":"1stake"}`))
+		}}
+	return &Scenario{
+		Name: "S-MSVC", Params: ps,
+		Rig:   RigConfig{ModuleServices: []ModuleSvcSpec{{Module: "msmod", Service: "ms", Provider: MSP, Result: resultOK, Output: outputOK}}},
+		Funds: []Funding{{O1, 100}, {O2, 100}, {C1, 60}}, Extra: append(append([]sdk.AccAddress{}, allAccounts...), MSP),
+		Setup:     []Action{install, actDefine("a", "AU")},
+		Templates: []Template{tMsvc, tOne},
+		Alpha: lifeAlpha(AlphaOpts{RespKinds: []string{"ok"}, BindOps: []Action{
+			actBind("ms", "P1", "O1", 10, "p1", 1), actBind("a", "P1", "O1", 10, "p1", 1), actBind("ms", "MSP", "O1", 10, "p1", 1)}}),
+		Depth: depth, MaxBlocks: blocks, MaxMsgs: msgs,
+	}
+}
